@@ -42,17 +42,17 @@ type verifC02Hdr struct {
 type verifC02Case struct {
 	Kind string `json:"kind"` // tw | conns
 	// tw
-	Recover  bool          `json:"recover"`
-	Bypass   string        `json:"bypass"` // none | upgrade | zero
-	MaxBytes int64         `json:"maxbytes"`
-	Clen     int64         `json:"clen"`
+	Recover  bool             `json:"recover"`
+	Bypass   string           `json:"bypass"` // none | upgrade | zero
+	MaxBytes int64            `json:"maxbytes"`
+	Clen     int64            `json:"clen"`
 	Rh0      []verifC02Hdr    `json:"rh0"`
 	Acts     []verifC02Action `json:"acts"`
 	Fire     verifC02Fire     `json:"fire"`
 	// conns
-	N     int       `json:"n"`
-	Reqs  int       `json:"reqs"`
-	Inner bool      `json:"inner"`
+	N     int          `json:"n"`
+	Reqs  int          `json:"reqs"`
+	Inner bool         `json:"inner"`
 	Ops   []verifC02Op `json:"ops"`
 }
 
@@ -98,10 +98,10 @@ func verifC02Bytes(b []byte) []int {
 // ---------------------------------------------------------------------------- the "real" writer
 
 type verifC02Event struct {
-	T string     `json:"t"` // wh | w
-	C int        `json:"c,omitempty"`
+	T string        `json:"t"` // wh | w
+	C int           `json:"c,omitempty"`
 	H []verifC02Hdr `json:"h,omitempty"`
-	B []int      `json:"b,omitempty"`
+	B []int         `json:"b,omitempty"`
 }
 
 // verifC02Writer logs every call that reaches the underlying writer and forwards it to a ResponseRecorder
